@@ -3,16 +3,18 @@
    input of selector 1:
      ippvs plr ippl dra                       four gate flags
      phase nodeName? deleting?                the pod's lifecycle position (NewTaskInfo)
+     n kind*n                                 the pod's volumes (see [vol_key])
      n (name tracked plsup)*n                 classification of the names >= 5
      pod                                      see [dPod]
    a quantity is two tokens (v, e): the amount v * 10^-e, 0 <= e <= 9.
    output: tag 1 GetPodResourceRequest, tag 2 GetPodResourceWithoutInitContainers,
            tag 3 upstream PodRequests (exact quantities), tag 4 NewResource of it,
-           tag 5/6/7 NewTaskInfo(pod).Resreq / .InitResreq / .BestEffort.
+           tag 5/6/7 api.NewTaskInfo(pod).Resreq / .InitResreq / .BestEffort,
+           tag 8/9/10 the same of SchedulerCache.NewTaskInfo(pod) (CSI volumes counted).
    A quantity in an OUTPUT list is (name, whole units, nano remainder). *)
 From stdpp Require Import gmap.
 From Coq Require Import ZArith List.
-From V Require Import Base.Codec Base.Res Base.ResCodec C15.Model C15.Laws.
+From V Require Import Base.Codec Base.Res Base.ResCodec C15.Model C15.Laws C15.Lemmas.
 Import ListNotations.
 Open Scope Z_scope.
 
@@ -58,15 +60,34 @@ Definition dMeta : dec pod_meta :=
   let* ph := dZ in let* nd := dBool in let* del := dBool in
   if (ph <? 0) || (5 <? ph) then fail else ret (mkMeta ph nd del).
 
+(* One volume of the pod, as the harness's small PVC / PV / StorageClass world
+   resolves it (getPodCSIVolumes / getCSIDriverInfo / getCSIDriverInfoFromSC,
+   cache/event_handlers.go 101-222); kind:
+     0 emptyDir (not a claim)          1..9  PVC bound to a PV of CSI driver d
+     -1 PVC bound to a non-CSI PV      11..19 unbound PVC, StorageClass provisioner d
+     30 StorageClass of an ignored     21..29 unbound PVC, StorageClass parameter csi-driver-name d
+        provisioner                    41..49 generic ephemeral volume, PV of driver d
+   A counted volume of driver d is charged to name 14 + d ("attachable-volumes-csi-drv<d>").
+   This table is codec glue: the theorems quantify over every list of resolved names. *)
+Definition vol_key (kind : Z) : option positive :=
+  let drv :=
+    if (1 <=? kind) && (kind <=? 9) then Some kind
+    else if (11 <=? kind) && (kind <=? 19) then Some (kind - 10)
+    else if (21 <=? kind) && (kind <=? 29) then Some (kind - 20)
+    else if (41 <=? kind) && (kind <=? 49) then Some (kind - 40)
+    else None in
+  match drv with Some d => Some (Z.to_pos (14 + d)) | None => None end.
+
 Definition dCase :=
   let* ippvs := dBool in let* plr := dBool in let* ippl := dBool in let* dra := dBool in
   let* m := dMeta in
-  let* t := dNames in let* p := dPod in ret (ippvs, plr, ippl, dra, m, t, p).
+  let* vols := dList dZ in
+  let* t := dNames in let* p := dPod in ret (ippvs, plr, ippl, dra, m, omap vol_key vols, t, p).
 
 Definition entry (sel : Z) (toks : list Z) : list Z :=
   match sel with
   | 1 => match run_dec dCase toks with
-         | Some (ippvs, plr, ippl, dra, m, t, p) =>
+         | Some (ippvs, plr, ippl, dra, m, keys, t, p) =>
            let tr := tracked_of t in let ps := plsup_of t in
            let up := k8s_pod_requests ps (opts_of ippvs plr ippl dra) p in
            tag 1 ++ eRes (vc_pod_request tr ps ippvs plr ippl dra p) ++
@@ -75,7 +96,10 @@ Definition entry (sel : Z) (toks : list Z) : list Z :=
            tag 4 ++ eRes (new_resource tr up) ++
            tag 5 ++ eRes (task_resreq tr ps ippvs plr ippl dra m p) ++
            tag 6 ++ eRes (task_init_resreq tr ps ippvs plr ippl dra m p) ++
-           tag 7 ++ eBool (task_best_effort tr ps ippvs plr ippl dra m p)
+           tag 7 ++ eBool (task_best_effort tr ps ippvs plr ippl dra m p) ++
+           tag 8 ++ eRes (cache_task_resreq tr ps ippvs plr ippl dra keys m p) ++
+           tag 9 ++ eRes (cache_task_init_resreq tr ps ippvs plr ippl dra keys m p) ++
+           tag 10 ++ eBool (cache_task_best_effort tr ps ippvs plr ippl dra keys m p)
          | None => bad_input end
   (* laws on the implementations' own results: must answer [1] *)
   | 101 => match run_dec (let* up := dRes in let* vc := dRes in let* rq := dRes in let* irq := dRes in
@@ -86,9 +110,20 @@ Definition entry (sel : Z) (toks : list Z) : list Z :=
                           ret (up, vc, rq, irq)) toks with
            | Some (up, vc, rq, irq) => eBool (law_not_less_task up vc rq irq)
            | None => bad_input end
-  | 103 => match run_dec (let* kc := dZ in let* km := dZ in let* vc := dRes in let* rq := dRes in
-                          ret (kc, km, vc, rq)) toks with
-           | Some (kc, km, vc, rq) => eBool (law_kube_units kc km vc rq)
+  | 103 => match run_dec (let* kc := dZ in let* km := dZ in let* ksc := dList (dPair dPos dZ) in
+                          let* vc := dRes in let* rq := dRes in ret (kc, km, ksc, vc, rq)) toks with
+           | Some (kc, km, ksc, vc, rq) => eBool (law_kube_units kc km ksc vc rq)
+           | None => bad_input end
+  (* what the scheduler cache charges: SchedulerCache.NewTaskInfo *)
+  | 104 => match run_dec (let* up := dRes in let* crq := dRes in let* cirq := dRes in let* be := dBool in
+                          let* vols := dList dZ in ret (up, crq, cirq, be, omap vol_key vols)) toks with
+           | Some (up, crq, cirq, be, keys) => eBool (law_cache_reservation up crq cirq be keys)
+           | None => bad_input end
+  (* the harness's classification "inside the theorem's hypothesis" must be the
+     extracted decision of pod_ok itself *)
+  | 105 => match run_dec (let* claimed := dBool in let* c := dCase in ret (claimed, c)) toks with
+           | Some (claimed, (ippvs, plr, ippl, dra, m, keys, t, p)) =>
+             eBool (Bool.eqb claimed (bool_decide (pod_ok (tracked_of t) (plsup_of t) p)))
            | None => bad_input end
   | _ => bad_input
   end.
